@@ -165,6 +165,7 @@ func runProperty(spec *PropSpec, repo, tier string, writeEvidence bool) int {
 	var violations []string
 	var known []string
 	nObl, nDis := 0, 0
+	byBackend := map[string]int{}
 	solverTime := 0.0
 	trusted := map[string]string{}
 	var notes []string
@@ -230,6 +231,7 @@ func runProperty(spec *PropSpec, repo, tier string, writeEvidence bool) int {
 			evid = append(evid, ev)
 			if o.Result != nil && o.Result.Status == "unsat" {
 				nDis++
+				byBackend[o.Result.Solver]++
 				if len(samples) < 3 && (o.Kind == "ensures" || o.Kind == "invariant-preserved") {
 					samples = append(samples, map[string]string{"obligation": o.Name, "clause": o.Text, "verdict": "unsat (negation of the VC) by " + o.Result.Solver})
 				}
@@ -346,12 +348,13 @@ func runProperty(spec *PropSpec, repo, tier string, writeEvidence bool) int {
 		"coverage": map[string]interface{}{
 			"obligations":              nObl,
 			"discharged":               nDis,
-			"checker_cmd":              fmt.Sprintf("/verif/bin/ergoverify check --tier %s %s  (per obligation: z3-new | z3 | cvc5 on the generated SMT-LIB, first definite answer; thorough: all must agree)", tier, spec.ID),
+			"checker_cmd":              fmt.Sprintf("/verif/bin/ergoverify check --tier %s %s  (per obligation, staged: weakened variants of the query (fewer assumptions, lambda frames) on z3 5.1 without array extensionality - unsat answers only; then the full query on z3 5.1 | z3 4.8.12 | cvc5 1.0; first definite answer; thorough: every solver is waited for and all must agree)", tier, spec.ID),
 			"trusted_base":             trustedList,
 			"functions_under_contract": funcsUnder,
 			"inlined_leaf_helpers":     sortedBoolKeys(inlined),
 			"per_obligation":           evid,
 			"solver_time_s":            solverTime,
+			"discharged_by_backend":    byBackend,
 			"known_findings_matched":   known,
 			"vacuity_cover":            vacuity,
 			"samples":                  samples,
